@@ -53,7 +53,9 @@ Definition znth {A} (l : list A) (i : Z) : option A :=
 (* ------------------------------------------------------------------------------------------------ *)
 (** * The validation checks the code makes (regenerated), and those of the pinned tree *)
 
-Inductive page_kind : Set := DictPage | DataPage.
+(** [FirstDataPage]: the first page load of a chunk that has no dictionary yet - a DICTIONARY page found
+    where the data pages start is accepted and loaded as the chunk's dictionary (file_reader f9ba0e6). *)
+Inductive page_kind : Set := DictPage | DataPage | FirstDataPage.
 
 Record pchecks : Set := mkPC {
   pk_rg : bool;                       (* get_column: row group index range *)
@@ -69,10 +71,10 @@ Record pchecks : Set := mkPC {
 
 Definition current_pchecks : pchecks :=
   mkPC GetCol_checks_row_group GetCol_checks_column GetCol_checks_type_agreement
-       (fun k => match k with DictPage => Page_mmap_dict_checks_offset | DataPage => Page_mmap_data_checks_offset end)
-       (fun k => match k with DictPage => Page_mmap_dict_clamps_window | DataPage => Page_mmap_data_clamps_window end)
-       (fun k => match k with DictPage => Page_mmap_dict_checks_page_size | DataPage => Page_mmap_data_checks_page_size end)
-       (fun k => match k with DictPage => Page_fread_dict_checks_short_read | DataPage => Page_fread_data_checks_short_read end)
+       (fun k => match k with DictPage => Page_mmap_dict_checks_offset | _ => Page_mmap_data_checks_offset end)
+       (fun k => match k with DictPage => Page_mmap_dict_clamps_window | _ => Page_mmap_data_clamps_window end)
+       (fun k => match k with DictPage => Page_mmap_dict_checks_page_size | _ => Page_mmap_data_checks_page_size end)
+       (fun k => match k with DictPage => Page_fread_dict_checks_short_read | _ => Page_fread_data_checks_short_read end)
        Page_mmap_zero_copy_checks_num_values Page_dict_checks_fixed_size.
 
 (** the pinned tree (commit 06cdad3): index checks and the stdio short-read check only *)
@@ -166,10 +168,14 @@ Record loaded : Set := mkLoaded {
 Definition window_size : Z := Z.of_N Page_HEADER_WINDOW.
 Definition min_header_read : Z := Z.of_N Page_MIN_HEADER_READ.
 
-Definition expected_type_ok (k : page_kind) (t : Z) : bool :=
+(** The page type a load accepts: [None] = accepted, [Some c] = rejected with status c. *)
+Definition type_verdict (k : page_kind) (t : Z) : option Z :=
   match k with
-  | DictPage => t =? E_CARQUET_PAGE_DICTIONARY
-  | DataPage => (t =? E_CARQUET_PAGE_DATA) || (t =? E_CARQUET_PAGE_DATA_V2)
+  | DictPage => if t =? E_CARQUET_PAGE_DICTIONARY then None else Some E_CARQUET_ERROR_INVALID_PAGE
+  | DataPage | FirstDataPage =>
+      if (match k with FirstDataPage => t =? E_CARQUET_PAGE_DICTIONARY | _ => false end) then None else
+      if t =? E_CARQUET_PAGE_DATA_V2 then Some E_CARQUET_ERROR_NOT_IMPLEMENTED else
+      if t =? E_CARQUET_PAGE_DATA then None else Some E_CARQUET_ERROR_INVALID_PAGE
   end.
 
 Section Load.
@@ -194,13 +200,14 @@ Section Load.
     | HdrErr c => Err c
     | HdrOk h hs =>
       let hs := Z.of_nat hs in
-      if negb (expected_type_ok k (ph_type h)) then Err E_CARQUET_ERROR_INVALID_PAGE else
+      match type_verdict k (ph_type h) with Some c => Err c | None =>
       if pk_psize ck k && ((ph_csize h <? 0) || (ph_csize h >? avail - hs))
       then Err E_CARQUET_ERROR_INVALID_PAGE else
       let body := mkRange (off + hs) (ph_csize h mod two64) in   (* (size_t) of a negative size is huge *)
       if in_fileb n body
       then Ok (mkLoaded h hs body [mkRange off hs; body])
       else Fault OobRead
+      end
     end.
 
   (** stdio: fseek + fread of the window into a local buffer, then malloc + fread of the body *)
@@ -214,12 +221,13 @@ Section Load.
     | HdrErr c => Err c
     | HdrOk h hs =>
       let hs := Z.of_nat hs in
-      if negb (expected_type_ok k (ph_type h)) then Err E_CARQUET_ERROR_INVALID_PAGE else
+      match type_verdict k (ph_type h) with Some c => Err c | None =>
       if ph_csize h <? 0 then Err E_CARQUET_ERROR_OUT_OF_MEMORY else    (* malloc((size_t)negative) fails *)
       let data_read := Z.max 0 (Z.min (ph_csize h) (n - (off + hs))) in
       if pk_short ck k && negb (data_read =? ph_csize h) then Err E_CARQUET_ERROR_FILE_READ else
       if negb (data_read =? ph_csize h) then Fault OobRead             (* decoders would read the unread part of the buffer *)
       else Ok (mkLoaded h hs (mkRange (off + hs) (ph_csize h)) [mkRange off header_read; mkRange (off + hs) data_read])
+      end
     end.
 
   Definition load (p : io_path) (k : page_kind) (f : list N) (off : Z) : res loaded :=
